@@ -49,3 +49,39 @@ def run(res, prop, tier, seed, work):
         "item_kinds": dict(collections.Counter(it["kind"] for r in all_recs for it in r["items"])),
         "protocol_notes_no_listed_property": dict(notes), "checker_cmd": st["cmd"],
     }
+
+
+PEER_RUNS = {"quick": 10, "thorough": 400}
+
+
+def run_peers(res, prop, tier, seed, work):
+    """C26 over the wire: GETP / GIVP messages to a real node (harness/syncrec mode peers) against Pex.tla's Valid and bound
+    (specs/pex/PeerWireRecords.tla).  Invalid address admitted / list beyond Max / peer dropped -> C26; reply clauses -> notes."""
+    spec = os.path.join(vlib.SPECS, "pex")
+    binary = vlib.build_harness(work, "syncrec", "syncrec")
+    recs = os.path.join(work, "peers.ndjson")
+    p = vlib.run([binary, recs, str(seed), str(PEER_RUNS[tier]), "peers"], timeout=3000, check=False)
+    if p.returncode != 0 or not os.path.exists(recs):
+        raise Infra("peers recorder failed:\n" + (p.stdout or "")[-2000:])
+    pwork = os.path.join(work, "peers")
+    os.makedirs(pwork, exist_ok=True)
+    st, mism = vlib.validate_records(spec, "PeerWireRecords", "PeerWireRecords.cfg", pwork, recs, chunk=20000, with_reason=True)
+    notes = collections.Counter()
+    for i, (r, parts) in enumerate(mism):
+        owner, _, what = parts[1].partition(":")
+        sig = "peerwire:%s:%s" % (r["msg"], what)
+        if owner == "X":
+            notes[sig] += 1
+            if notes[sig] == 1:
+                print("NOTE: peer exchange protocol (no listed property): %s: %s" % (sig, json.dumps({k: r[k] for k in ("msg", "items", "sent", "max")})[:300]))
+            continue
+        rp = vlib.save_replay(work, "%s_peerwire_%d.json" % (owner, i), {"engine": "peerwire", "signature": sig, "seed": seed, "tier": tier, "record": r}) if owner == prop and i < 20 else ""
+        res.mismatch(owner, sig, "a real node over TCP, run %d step %d (Max %d): %s of %s -> list %s" % (r["run"], r["step"], r["max"], r["msg"], json.dumps(r["items"])[:200], json.dumps(r["post"])[:200]), rp)
+    all_recs = vlib.read_ndjson(recs)
+    res.coverage["over_the_wire"] = {
+        "messages_to_a_real_node": len(all_recs), "runs": PEER_RUNS[tier],
+        "by_message": dict(collections.Counter(r["msg"] for r in all_recs)),
+        "address_classes_given": dict(collections.Counter("%s:%s" % (it["class"], it["port"]) for r in all_recs for it in r["items"]).most_common(30)),
+        "list_sizes_reached_by_max": dict(collections.Counter("max%d:%d" % (r["max"], len(r["post"])) for r in all_recs).most_common(12)),
+        "protocol_notes_no_listed_property": dict(notes), "checker_cmd": st["cmd"],
+    }
